@@ -32,14 +32,14 @@ fn int_lex<const N: usize>() {
             let (wv, wn) = want.unwrap();
             assert!(*v == wv, "integer literal denotes its documented value");
             assert!(is_suffix_at(input, rest, wn), "exactly the literal's characters are consumed");
-            kani::cover!(*v < 0, "negative decimal");
+            kani::cover!(N == 1 || *v < 0, "negative decimal");
             kani::cover!(N < 3 || buf[1] == b'x', "hex");
             kani::cover!(N < 2 || (buf[0] == b'0' && *v > 0), "octal or hex");
             kani::cover!(N == 1 || wn < N, "literal followed by something else");
         }
         Err(_) => {
             assert!(want.is_none(), "well-formed integer literal rejected");
-            kani::cover!(buf[0] == b'0', "malformed octal / hex");
+            kani::cover!(N == 1 || buf[0] == b'0', "malformed octal / hex");
             kani::cover!(N < 2 || buf[0] == b'-', "malformed negative");
         }
     }
